@@ -64,6 +64,8 @@ def run(R, tier, rng):
                     if isinstance(s, list) and not s: idx = np.array([], dtype=int)
                     return fields_of(kinds, mk()[idx])
                 add("dc_select " + show(ids) + " " + show(enc_rsel(s)) + tag, guarded(sel), "select/" + type(s).__name__, nt, f"obj[{s!r}] on {nf} fields x {n} entries")
+                if isinstance(s, list) and s:       # the same selector as a plain Python list (numpy treats a list of bools as a mask)
+                    add("dc_select " + show(ids) + " " + show(enc_rsel(s)) + tag + " rawlist", guarded(lambda s=s: fields_of(kinds, mk()[s])), "select/rawlist", nt, f"obj[{s!r}] (python list) on {nf} fields x {n} entries")
             for i in range(-n - 1, n + 1):
                 add("dc_item " + show(ids) + " " + str(i) + tag, guarded(lambda i=i: fields_of(kinds, mk()[i])), "item", nt, f"obj[{i}]")
             # iteration: entry i consists of the i-th element of every field
@@ -90,7 +92,7 @@ def run(R, tier, rng):
                 R.record("eq " + show(ids) + " " + show(ids2) + tag, guarded(eq), expect, expect, nt, "eq", py=f"obj == obj' ({variant})")
             # astype to a narrower class (field names preserved)
             if nf >= 2:
-                for keep in ([0], [nf - 1], list(range(nf - 1))):
+                for keep in ([0], [nf - 1], list(range(nf - 1)), list(range(nf))[::-1], [nf - 1, 0]):
                     ns = {"__annotations__": {f"f{j}": (int if kinds[j] == "i" else float if kinds[j] == "f" else np.ndarray) for j in keep}}
                     Narrow = npdataclass(type("Narrow", (), ns))
                     def ast(keep=keep, Narrow=Narrow):
